@@ -1,11 +1,13 @@
 """C10 - UCI move text round-trips and is accepted exactly when such a move exists."""
-from . import ucirules, apirules
+from . import ucirules, apirules, genrules
 
 
 def run(ctx):
     facts = ctx.facts("dev")
     thorough = ctx.tier == "thorough"
     ctx.decided += [
+        "X5/X6 the two gates every UCI reader relies on are exact: Move::new's well-formedness test (all 532,480 tuples, = C06/WF) and "
+        "the semilegality validator on abstract boards (= C06/G6); so a string without a promotion letter cannot name a pawn move to the last rank",
         "X1 MoveKind/PromotePiece/Piece conversions tabulated and mutually inverse; uci::Move::from(Move) per kind; writer and reader use "
         "the letters n/b/r/q; null is written '0000'",
         "X2 from_uci_semilegal/from_uci_legal return Ok only for the conversion of the parsed text after semi_validate/validate on that board",
@@ -20,3 +22,5 @@ def run(ctx):
     ucirules.readers_rule(ctx, facts, "X2")
     ucirules.null_rule(ctx, facts, "X3")
     ucirules.inference_rule(ctx, facts, "X4", thorough)
+    genrules.wellformed_rule(ctx, facts, "X5")
+    genrules.semilegal_rule(ctx, facts, "X6", thorough=True)
